@@ -47,21 +47,40 @@ else:
 
 out.write("\n### 9.6 Seeded changes (independent sub-agents) and which checks catch them\n\n")
 out.write("Each change was produced by a fresh sub-agent that saw only the property text and a scratch worktree,\nconfirmed here in a scratch worktree (builds; its demonstration fails with the change and passes without;\nexisting tests of the touched packages pass with it — `tools/confirm_seed.sh`), and is kept under\n`seeded/<name>/`. `selftest/run.sh` applies each to a scratch copy and runs the property's check.\n\n")
-res = {}
-p = root + "/selftest/RESULTS.tsv"
+res = collections.defaultdict(list)
+p = root + "/seeded/RESULTS.tsv"
 if os.path.exists(p):
     for l in open(p):
         f = l.rstrip("\n").split("\t")
         if len(f) >= 3:
-            res[f[1]] = f[2]
-out.write("| seeded change | property | needs to manifest | verdict of the property's check |\n|---|---|---|---|\n")
+            res[f[1]].append("%s: %s" % (f[0], f[2]))
+out.write("Verdicts are those of `tools/seedsrun.sh` (quick tier of the property's own check, plus the checks named in\n`seeded/<name>/also_checks`), recorded in `seeded/RESULTS.tsv`.\n\n")
+out.write("| seeded change | property | needs to manifest | verdict (quick tier) |\n|---|---|---|---|\n")
 for d in sorted(glob.glob(root + "/seeded/*/meta.json")):
     m = json.load(open(d))
     name = os.path.basename(os.path.dirname(d))
-    v = m.get("check_result") or res.get("seeded/%s/patch.diff" % name, "not run yet")
+    v = "; ".join(res.get(name, [])) or "not run"
     out.write("| %s | %s | %s | %s |\n" % (name, m["property"], m.get("needs_to_manifest", "").replace("|", "\\|"), v))
 extra = root + "/seeded/NOTES.md"
 if os.path.exists(extra):
     out.write("\n" + open(extra).read())
+out.write("\n### 9.7 Self-test patches (breaks written by the check authors)\n\n")
+out.write("`selftest/<ID>/*.diff` are breaks of the property written while building each check (many are the reverse\nof a `fix:` commit); `selftest/run.sh` applies each to a scratch copy and runs the check's quick tier.\n`selftest/RESULTS.tsv` holds the last consolidated run; patches added or regenerated after that run were\nverified one by one by their authors with `tools/muttest.sh`.\n\n")
+p = root + "/selftest/RESULTS.tsv"
+if os.path.exists(p):
+    cnt = collections.Counter(); unusable = []; ids = set()
+    for l in open(p):
+        f = l.rstrip("\n").split("\t")
+        if len(f) >= 3:
+            cnt[f[2].split("(")[0]] += 1; ids.add(f[0])
+            if not f[2].startswith("CAUGHT"):
+                unusable.append("%s %s: %s" % (f[0], f[1], f[2]))
+    out.write("Consolidated run: %s over %d properties.\n" % (", ".join("%d %s" % (v, k) for k, v in sorted(cnt.items())), len(ids)))
+    if unusable:
+        out.write("Not caught / not usable (patch no longer applies after a later `fix:` commit, or an equivalent mutant):\n\n")
+        for u in unusable:
+            out.write("* %s\n" % u)
+npatch = len(glob.glob(root + "/selftest/*/*.diff"))
+out.write("\nPatches on disk: %d.\n" % npatch)
 open(root + "/DESIGN.md", "w").write(head + out.getvalue())
 print("DESIGN.md section 9 regenerated")
